@@ -118,6 +118,11 @@ PodFinish == /\ On("PodFinish")
 InstanceGone == On("Linger") /\ \E n \in asg.terminating : asg' = [asg EXCEPT !.members = @ \ {n}, !.terminating = @ \ {n}]
                   /\ UNCHANGED <<now, api, run, pend, pc, ctl, accepted, alive, snap>>
 
+\* the cloud takes an instance out of the group behind escalator's back (failed health check, spot reclaim): the Node object stays
+\* until Kubernetes collects it; the group is below its desired capacity and the cloud will launch a replacement
+InstanceLost == On("InstanceLost") /\ \E n \in asg.members \ asg.terminating : asg' = [asg EXCEPT !.members = @ \ {n}]
+                  /\ UNCHANGED <<now, api, run, pend, pc, ctl, accepted, alive, snap>>
+
 CloudLaunch == On("CloudLaunch") /\ Cardinality(asg.members \ asg.terminating) < asg.desired
                  /\ \E n \in NodeIds : n \notin asg.members /\ n \notin Present /\ run[n] = 0
                       /\ n = (CHOOSE m \in NodeIds : m \notin asg.members /\ m \notin Present /\ run[m] = 0)   \* symmetric: pick one
@@ -221,7 +226,7 @@ RunOnceAct ==
        /\ UNCHANGED <<pend, run, snap>>           \* pods of a removed node stay until they finish or the Node is collected
 
 Next == Tick \/ PodArrive \/ PodSchedule \/ PodFinish \/ CloudLaunch \/ Register \/ Cordon \/ Uncordon \/ ExtForce \/ ExtUnforce
-        \/ Annotate \/ Unannotate \/ ExtTaint \/ ExtUntaint \/ NodeGone \/ AsgEdit \/ DesiredBump \/ InstanceGone \/ LagOn \/ LagOff \/ Restart \/ RunOnceAct
+        \/ Annotate \/ Unannotate \/ ExtTaint \/ ExtUntaint \/ NodeGone \/ AsgEdit \/ DesiredBump \/ InstanceGone \/ InstanceLost \/ LagOn \/ LagOff \/ Restart \/ RunOnceAct
 
 Spec == Init /\ [][Next]_vars
 
